@@ -122,15 +122,39 @@ def run_nodes(shard, tier, seed):
             if score is None:
                 c['no_score'] += 1
                 continue
-            # (iii) successful write
-            evals += 1
-            nontriv += 1
-            r = lib.call(score.write, path)
-            if r[0] == 'exc':
-                c['valid_score_write_failed'] += 1
-                continue
-            data = open(path, 'rb').read()
+            # (iii) successful write, over every prior state of the destination
             want = (docs.DECL + score.to_string()).encode('utf-8')
+            failed = False
+            for prior in ('absent', 'empty', 'shorter', 'longer', 'much-longer'):
+                if os.path.exists(path):
+                    os.unlink(path)
+                if prior != 'absent':
+                    open(path, 'wb').write({'empty': b'', 'shorter': b'OLD', 'longer': want + b'<!-- tail of a longer file -->\n' * 3,
+                                            'much-longer': b'x' * (len(want) * 3 + 100000)}[prior])
+                evals += 1
+                nontriv += 1
+                r = lib.call(score.write, path)
+                if r[0] == 'exc':
+                    c['valid_score_write_failed'] += 1
+                    failed = True
+                    break
+                data = open(path, 'rb').read()
+                c['successful_writes'] += 1
+                if data != want and prior != 'absent':
+                    kind = 'written-bytes-differ'
+                    if data.startswith(want):
+                        kind = 'previous-content-not-truncated'
+                    viol.append({'sig': {'kind': kind, 'prior': prior}, 'case': {'score': docs.to_text(el)[:3000]},
+                                 'detail': {'written': len(data), 'expected': len(want)}})
+                    break
+                if prior == 'absent' and data != want:
+                    break
+            if failed:
+                continue
+            if os.path.exists(path):
+                os.unlink(path)
+            lib.call(score.write, path)
+            data = open(path, 'rb').read()
             if data != want:
                 kind = 'written-bytes-differ'
                 try:
